@@ -110,6 +110,33 @@ Definition walk (k : kind) (c : iclip) (istart istop fstart slope scale_start sc
   do r3 <- (if 0 <? scale_stop then draw_cap k c (istop - 1) (snd r2) slope scale_stop else Some ([], snd r2));
   Some (fst r1 ++ fst r2 ++ fst r3).
 
+(* the clip handling of do_anti_hairline after the set-up, the same code for both orientations: [al, ar) is the clip along the
+   walking axis (columns for the mostly-horizontal case, rows for the mostly-vertical one), [cl, ch) across it; [last] is the
+   far end point's coordinate along the axis (for contribution_64) *)
+Definition clipped_walk (k : kind) (clip : Z * Z * Z * Z) (al ar cl ch : Z) (istart istop fstart slope scale_start scale_stop last : Z)
+  : option (list (Z * Z * Z)) :=
+  if (ar <=? istart) || (istop <=? al) then Some [] else
+  do adj <- (if istart <? al then
+               do d <- ck (slope * (al - istart)); do f <- ck (fstart + d);
+               if istop - al =? 1 then Some (al, f, contribution_64 last, 0) else Some (al, f, 64, scale_stop)
+             else Some (istart, fstart, scale_start, scale_stop));
+  let '(istart, fstart, scale_start, scale_stop) := adj in
+  let '(istop, scale_stop) := if ar <? istop then (ar, 0) else (istop, scale_stop) in
+  if istop <? istart then None else
+  if istart =? istop then Some [] else
+  (* are the values across the axis completely inside the clip? *)
+  do span <- ck ((istop - istart - 1) * slope);
+  do tb <- (if 0 <=? slope then
+              do a <- ck (fstart - half16); do b0 <- ck (fstart + span); do b1 <- ck (b0 + half16);
+              do b <- fdot16_ceil_to_i32 b1; Some (fdot16_floor_to_i32 a, b)
+            else
+              do b1 <- ck (fstart + half16); do b <- fdot16_ceil_to_i32 b1;
+              do a0 <- ck (fstart + span); do a <- ck (a0 - half16); Some (fdot16_floor_to_i32 a, b));
+  let lo := fst tb - 1 in let hi := snd tb + 1 in
+  if (ch <=? lo) || (hi <=? cl) then Some [] else
+  let c' := if (cl <=? lo) && (hi <=? ch) then None else Some clip in
+  walk k c' istart istop fstart slope scale_start scale_stop.
+
 (* one segment short enough not to be subdivided; clip = (left, top, right, bottom) of the sub-clip, if any *)
 Definition anti_hairline_short (x0 y0 x1 y1 : Z) (clip : iclip) : option (list (Z * Z * Z)) :=
   do dxa <- ck (x1 - x0); do dya <- ck (y1 - y0);
@@ -135,28 +162,7 @@ Definition anti_hairline_short (x0 y0 x1 y1 : Z) (clip : iclip) : option (list (
     let '(scale_start, scale_stop) := sc in
     match clip with
     | None => walk k None istart istop fstart slope scale_start scale_stop
-    | Some (cl, ct, cr, cb) =>
-        if (cr <=? istart) || (istop <=? cl) then Some [] else
-        do adj <- (if istart <? cl then
-                     do d <- ck (slope * (cl - istart)); do f <- ck (fstart + d);
-                     if istop - cl =? 1 then Some (cl, f, contribution_64 x1, 0) else Some (cl, f, 64, scale_stop)
-                   else Some (istart, fstart, scale_start, scale_stop));
-        let '(istart, fstart, scale_start, scale_stop) := adj in
-        let '(istop, scale_stop) := if cr <? istop then (cr, 0) else (istop, scale_stop) in
-        if istop <? istart then None else
-        if istart =? istop then Some [] else
-        (* are the Y values completely inside the clip? *)
-        do span <- ck ((istop - istart - 1) * slope);
-        do tb <- (if 0 <=? slope then
-                    do a <- ck (fstart - half16); do b0 <- ck (fstart + span); do b1 <- ck (b0 + half16);
-                    do b <- fdot16_ceil_to_i32 b1; Some (fdot16_floor_to_i32 a, b)
-                  else
-                    do b1 <- ck (fstart + half16); do b <- fdot16_ceil_to_i32 b1;
-                    do a0 <- ck (fstart + span); do a <- ck (a0 - half16); Some (fdot16_floor_to_i32 a, b));
-        let top := fst tb - 1 in let bottom := snd tb + 1 in
-        if (cb <=? top) || (bottom <=? ct) then Some [] else
-        let c' := if (ct <=? top) && (bottom <=? cb) then None else clip in
-        walk k c' istart istop fstart slope scale_start scale_stop
+    | Some (cl, ct, cr, cb) => clipped_walk k (cl, ct, cr, cb) cl cr ct cb istart istop fstart slope scale_start scale_stop x1
     end
   else
     (* mostly vertical: top to bottom *)
@@ -181,27 +187,7 @@ Definition anti_hairline_short (x0 y0 x1 y1 : Z) (clip : iclip) : option (list (
     let '(scale_start, scale_stop) := sc in
     match clip with
     | None => walk k None istart istop fstart slope scale_start scale_stop
-    | Some (cl, ct, cr, cb) =>
-        if (cb <=? istart) || (istop <=? ct) then Some [] else
-        do adj <- (if istart <? ct then
-                     do d <- ck (slope * (ct - istart)); do f <- ck (fstart + d);
-                     if istop - ct =? 1 then Some (ct, f, contribution_64 y1, 0) else Some (ct, f, 64, scale_stop)
-                   else Some (istart, fstart, scale_start, scale_stop));
-        let '(istart, fstart, scale_start, scale_stop) := adj in
-        let '(istop, scale_stop) := if cb <? istop then (cb, 0) else (istop, scale_stop) in
-        if istop <? istart then None else
-        if istart =? istop then Some [] else
-        do span <- ck ((istop - istart - 1) * slope);
-        do lr <- (if 0 <=? slope then
-                    do a <- ck (fstart - half16); do b0 <- ck (fstart + span); do b1 <- ck (b0 + half16);
-                    do b <- fdot16_ceil_to_i32 b1; Some (fdot16_floor_to_i32 a, b)
-                  else
-                    do b1 <- ck (fstart + half16); do b <- fdot16_ceil_to_i32 b1;
-                    do a0 <- ck (fstart + span); do a <- ck (a0 - half16); Some (fdot16_floor_to_i32 a, b));
-        let left := fst lr - 1 in let right := snd lr + 1 in
-        if (cr <=? left) || (right <=? cl) then Some [] else
-        let c' := if (cl <=? left) && (right <=? cr) then None else clip in
-        walk k c' istart istop fstart slope scale_start scale_stop
+    | Some (cl, ct, cr, cb) => clipped_walk k (cl, ct, cr, cb) ct cb cl cr istart istop fstart slope scale_start scale_stop y1
     end.
 
 (* do_anti_hairline: segments longer than 511 px in x or y are halved first *)
